@@ -605,6 +605,11 @@ func (k Keeper) WithdrawAppReserveFundsFn(ctx sdk.Context, appId, assetId uint64
 		return types.ErrorInvalidAppOrAssetData
 	}
 
+	if appReserveFunds.TokenQuantity.Amount.LT(tokenQuantity.Amount) {
+		// the reserve cannot cover the shortfall: fail instead of recording a negative
+		// reserve and letting the caller pay out of other users' funds in auction custody
+		return types.ErrorInvalidAppOrAssetData
+	}
 	if appReserveFunds.TokenQuantity.Amount.Sub(tokenQuantity.Amount).GTE(sdk.ZeroInt()) {
 		if tokenQuantity.Amount.GT(sdk.ZeroInt()) {
 			err := k.bank.SendCoinsFromModuleToModule(ctx, types.ModuleName, auctionsV2types.ModuleName, sdk.NewCoins(tokenQuantity))
